@@ -31,7 +31,7 @@ ALLOWED_AXIOMS = set()  # every property theorem is expected to be closed under 
 
 TRUSTED_BASE = [
     "Coq 8.16.1 kernel and its vm_compute evaluator (no native_compute)",
-    "translators tools/schemagen (reflection, regexp/syntax) and tools/globalsgen (go/ssa) where the property uses generated tables",
+    "translators: harness gen (reflection on the jwt types, regexp/syntax) and tools/globalsgen (go/ssa, x/tools v0.29.0) where the property uses generated tables",
     "correspondence harness (Go): generators, fact computation with crypto/ed25519 and the standard library, canonicalisation, diff",
     "hand-written Gallina model of the jwt decision logic, tied to the code only on the explored cases",
     "Go toolchain, encoding/json, base64, nkeys, Ed25519 (modelled, not verified)",
@@ -102,6 +102,15 @@ def regen(log):
         if rc != 0:
             notes.append("translator (harness gen) failed on the tree")
             return notes
+        gdir = os.path.join(ROOT, "tools", "globalsgen")
+        gbin = os.path.join(WORK, "bin", "globalsgen")
+        rc, out = sh(["go", "build", "-o", gbin, "."], cwd=gdir, env=GOENV, timeout=900)
+        log.write("== build globalsgen rc=%d\n%s\n" % (rc, out))
+        if rc == 0:
+            rc, out = sh([gbin, "-repo", REPO, "-out", tmpd], cwd=gdir, env=GOENV, timeout=600)
+            log.write("== globalsgen rc=%d\n%s\n" % (rc, out))
+        if rc != 0:
+            notes.append("translator globalsgen (go/ssa) failed on the tree")
     with Lock("coq.lock"):
         for f in glob.glob(os.path.join(tmpd, "*.v")):
             dst = os.path.join(COQ, "Gen", os.path.basename(f))
@@ -115,6 +124,42 @@ def regen(log):
     return notes
 
 
+def strip_comments(txt):
+    """Remove Coq comments (nested), leaving string literals intact."""
+    out, i, depth, n = [], 0, 0, len(txt)
+    while i < n:
+        c = txt[i]
+        if depth == 0 and c == '"':
+            j = i + 1
+            while j < n:
+                if txt[j] == '"':
+                    if j + 1 < n and txt[j + 1] == '"':
+                        j += 2
+                        continue
+                    break
+                j += 1
+            out.append(txt[i:j + 1])
+            i = j + 1
+        elif txt.startswith("(*", i):
+            depth += 1
+            i += 2
+        elif depth > 0 and txt.startswith("*)", i):
+            depth -= 1
+            i += 2
+        elif depth > 0:
+            if c == '"':  # strings inside comments are lexed too
+                j = i + 1
+                while j < n and txt[j] != '"':
+                    j += 1
+                i = j + 1
+            else:
+                i += 1
+        else:
+            out.append(c)
+            i += 1
+    return "".join(out)
+
+
 HYGIENE = re.compile(r"\b(Admitted|admit|Axiom|Axioms|Parameter|Parameters|Conjecture|Admit Obligations)\b|Unset Guard Checking|Unset Positivity|Unset Universe Checking|bypass_check|-type-in-type")
 
 
@@ -122,8 +167,9 @@ def hygiene():
     bad = []
     for rel in coq_sources():
         txt = open(os.path.join(COQ, rel)).read()
-        txt = re.sub(r"\(\*.*?\*\)", "", txt, flags=re.S)
-        for m in HYGIENE.finditer(txt):
+        txt = strip_comments(txt)
+        txt_nostr = re.sub(r'"(?:[^"]|"")*"', '""', txt)
+        for m in HYGIENE.finditer(txt_nostr):
             bad.append("%s: %s" % (rel, m.group(0)))
         # Variable / Hypothesis outside a Section
         depth = 0
@@ -144,7 +190,7 @@ def prove(prop, cfg, log):
     res = {"obligations": 0, "discharged": 0, "failed": [], "axioms": {}, "theorems": []}
     pfile = os.path.join(COQ, "Properties", prop + ".v")
     src = open(pfile).read()
-    src_nc = re.sub(r"\(\*.*?\*\)", "", src, flags=re.S)
+    src_nc = strip_comments(src)
     theorems = re.findall(r"^\s*Theorem\s+(\w+)", src_nc, flags=re.M)
     printed = re.findall(r"^\s*Print Assumptions\s+(\w+)\s*\.", src_nc, flags=re.M)
     res["theorems"] = theorems
@@ -201,17 +247,34 @@ def build_harness(log):
         return rc == 0, out
 
 
-def run_harness(prop, tier, seed, outdir, log, extra=()):
+def build_race_harness(log):
+    with Lock("go.lock"):
+        env = dict(GOENV, CGO_ENABLED="1")
+        rc, out = sh(["go", "build", "-race", "-tags", "verif", "-o", os.path.join(WORK, "bin", "harness-race"), "."],
+                     cwd=os.path.join(ROOT, "harness"), env=env, timeout=1800)
+        log.write("== build harness-race rc=%d\n%s\n" % (rc, out))
+        return rc == 0, out
+
+
+def run_harness(prop, tier, seed, outdir, log, extra=(), race=False):
     for f in glob.glob(os.path.join(outdir, "cases_*")) + glob.glob(os.path.join(outdir, "summary.json")):
         os.remove(f)
     t0 = time.time()
-    cmd = [os.path.join(WORK, "bin", "harness"), prop, "-tier", tier, "-seed", str(seed), "-out", outdir] + list(extra)
-    rc, out = sh(cmd, cwd=os.path.join(ROOT, "harness"), env=GOENV, timeout=7200)
-    log.write("== harness %s rc=%d (%.1fs)\n%s\n" % (" ".join(cmd[1:]), rc, time.time() - t0, out[-20000:]))
+    binary = "harness-race" if race else "harness"
+    cmd = [os.path.join(WORK, "bin", binary), prop, "-tier", tier, "-seed", str(seed), "-out", outdir] + list(extra)
+    env = dict(GOENV, GORACE="halt_on_error=0 exitcode=0") if race else GOENV
+    rc, out = sh(cmd, cwd=os.path.join(ROOT, "harness"), env=env, timeout=7200)
+    log.write("== harness %s rc=%d (%.1fs)\n%s\n" % (" ".join(cmd[1:]), rc, time.time() - t0, out[-40000:]))
     sp = os.path.join(outdir, "summary.json")
     if rc != 0 or not os.path.exists(sp):
         return None, out
-    return json.load(open(sp)), out
+    summary = json.load(open(sp))
+    if race and "WARNING: DATA RACE" in out:
+        i = out.index("WARNING: DATA RACE")
+        summary.setdefault("spec_violations", None)
+        summary["spec_violations"] = (summary["spec_violations"] or []) + [
+            {"what": "C17: the race detector reports an unsynchronised access", "input": {"race_report": out[i:i + 6000]}}]
+    return summary, out
 
 
 def eval_cases(prop, summary, outdir, log):
@@ -337,11 +400,13 @@ def main():
     mism, errs = [], []
     if cfg.get("harness", True):
         ok, out = build_harness(log)
+        if ok and cfg.get("race"):
+            ok, out = build_race_harness(log)
         if not ok:
             problems.append({"kind": "harness-build", "what": "correspondence harness no longer compiles against the tree",
                              "detail": out.strip().splitlines()[-15:]})
         else:
-            summary, hout = run_harness(prop, tier, seed, outdir, log)
+            summary, hout = run_harness(prop, tier, seed, outdir, log, race=bool(cfg.get("race")))
             if summary is None:
                 problems.append({"kind": "harness-run", "what": "correspondence harness crashed", "detail": hout.strip().splitlines()[-25:]})
             else:
@@ -360,7 +425,7 @@ def main():
         widened = True
         wdir = os.path.join(outdir, "widen")
         os.makedirs(wdir, exist_ok=True)
-        s2, _ = run_harness(prop, "thorough", seed + 1, wdir, log)
+        s2, _ = run_harness(prop, "thorough", seed + 1, wdir, log, race=bool(cfg.get("race")))
         if s2:
             for v in s2.get("spec_violations") or []:
                 violations.append(v)
